@@ -722,6 +722,11 @@ def run_c10(c):
         # symmetry with the per-series psi entries swapped
         sw = variant(s1=c["s2"], s2=c["s1"], psi=[c["psi"][2], c["psi"][3], c["psi"][0], c["psi"][1]])
         rel.append([eng + ":symmetry", "eq", dist(sw, eng), d])
+        # ... also with a bound on the length difference (at the difference: allowed, one below: refused, both ways)
+        if l1 != l2 and c["mld"] == -1:
+            for k in sorted({abs(l1 - l2), abs(l1 - l2) - 1} - {0}):
+                rel.append([eng + ":symmetry[max_length_diff=|l1-l2|%s]" % ("" if k == abs(l1 - l2) else "-1"), "eq",
+                            dist(dict(sw, mld=k), eng), dist(variant(mld=k), eng)])
         # ... also with the Euclidean bound in play (pruning where it is a valid bound, and the bound itself)
         if c["inner"] != "cu" and c["ms"] == 0 and c["md"] == 0 and (c["pen"] == 0 or l1 == l2):
             rel.append([eng + ":symmetry[use_pruning]", "eq", dist(dict(sw, prune=True), eng),
